@@ -1005,6 +1005,87 @@ fn check_program(prog: &[Cmd], observe_from: usize) -> Result<(), String> {
     Ok(())
 }
 
+// ----------------------------------------------------------------------
+// fixed programs over other payload layouts (zero-sized, byte-sized, over-aligned)
+// ----------------------------------------------------------------------
+
+#[derive(Clone, Default, PartialEq, Eq, PartialOrd, Ord, Hash, Debug)]
+struct Zst;
+#[derive(Clone, Default, PartialEq, Eq, PartialOrd, Ord, Hash, Debug)]
+#[repr(align(64))]
+struct Wide(u8);
+
+fn layout_program<F: Family, T: Clone + Default + PartialEq + fmt::Debug + Hash + 'static>(tr: &mut Trace) {
+    for ctor in 0..5u8 {
+        let mut a: F::Rc<T> = match ctor {
+            0 => F::new(T::default()),
+            1 => F::from_t(T::default()),
+            2 => F::from_box(Box::new(T::default())),
+            3 => F::default(),
+            _ => F::new_uninit_write(T::default()),
+        };
+        let b = F::clone(&a);
+        let w = F::downgrade(&a);
+        tr.push(F::strong_count(&a) as i64);
+        tr.push(F::weak_count(&a) as i64);
+        tr.push((F::as_ptr(&a) as usize % std::mem::align_of::<T>().max(1)) as i64);
+        tr.push((F::as_ptr(&a) == F::as_ptr(&b)) as i64);
+        tr.push((F::w_as_ptr(&w) == F::as_ptr(&a)) as i64);
+        tr.push(F::eq(&a, &b) as i64);
+        tr.push((F::hash(&a) == F::hash(&b)) as i64);
+        tr.push(shash(&F::debug(&a)));
+        // raw round trips of both kinds of handle
+        let p = F::into_raw(b);
+        tr.push((p == F::as_ptr(&a)) as i64);
+        unsafe { F::inc_strong(p) };
+        tr.push(F::strong_count(&a) as i64);
+        unsafe { F::dec_strong(p) };
+        let b = unsafe { F::from_raw(p) };
+        let wp = F::w_into_raw(w);
+        tr.push((wp == p) as i64);
+        let w = unsafe { F::w_from_raw(wp) };
+        tr.push(F::w_strong_count(&w) as i64);
+        tr.push(F::w_weak_count(&w) as i64);
+        // get_mut / make_mut / try_unwrap
+        tr.push(F::get_mut(&mut a).is_some() as i64);
+        let before = F::as_ptr(&a);
+        let _ = F::make_mut(&mut a); // shared: clones into a new allocation
+        tr.push((F::as_ptr(&a) != before) as i64);
+        tr.push(F::strong_count(&b) as i64);
+        tr.push(F::get_mut(&mut a).is_some() as i64);
+        tr.push(F::try_unwrap(a).is_ok() as i64);
+        match F::try_unwrap(b) {
+            Ok(_) => tr.push(1),
+            Err(b) => {
+                tr.push(0);
+                drop(b);
+            }
+        }
+        tr.push(F::upgrade(&w).is_none() as i64);
+        tr.push(F::w_strong_count(&w) as i64);
+        tr.push(F::w_weak_count(&w) as i64);
+        drop(w);
+        let d: F::Weak<T> = F::weak_new();
+        tr.push(F::upgrade(&d).is_none() as i64);
+        tr.push(F::w_strong_count(&d) as i64);
+        let dp = F::w_into_raw(d);
+        let d = unsafe { F::w_from_raw(dp) };
+        tr.push(F::w_ptr_eq(&d, &F::weak_default()) as i64);
+    }
+}
+
+fn layout_traces<F: Family>() -> Trace {
+    let mut tr = Trace::new();
+    layout_program::<F, Zst>(&mut tr);
+    tr.push(-1);
+    layout_program::<F, u8>(&mut tr);
+    tr.push(-2);
+    layout_program::<F, Wide>(&mut tr);
+    tr.push(-3);
+    layout_program::<F, String>(&mut tr);
+    tr
+}
+
 fn arg_value(args: &[String], name: &str) -> Option<String> {
     args.iter().position(|a| a == name).and_then(|i| args.get(i + 1).cloned())
 }
@@ -1017,6 +1098,14 @@ fn main() {
     let args: Vec<String> = std::env::args().collect();
     match args.get(1).map(String::as_str) {
         Some("replay") => {
+            if arg_value(&args, "--program").as_deref() == Some("layout-programs") {
+                if layout_traces::<Std>() == layout_traces::<Cactus>() {
+                    println!("std and cactusref agree on the fixed layout programs");
+                    return;
+                }
+                println!("VIOLATED K7: std and cactusref disagree on the fixed layout programs");
+                std::process::exit(1);
+            }
             let prog: Vec<Cmd> = arg_value(&args, "--program").unwrap().split(',').map(parse_cmd).collect();
             match check_program(&prog, 0) {
                 Ok(()) => {
@@ -1050,6 +1139,10 @@ fn explore(args: &[String]) -> i32 {
     let max_secs: u64 = arg_value(args, "--max-secs").map(|s| s.parse().unwrap()).unwrap_or(u64::MAX);
     let max_states: usize = arg_value(args, "--max-states").map(|s| s.parse().unwrap()).unwrap_or(usize::MAX);
     let t0 = Instant::now();
+    // the fixed layout programs are run by the driver in a process of their own (`replay
+    // --program layout-programs`): a wrong offset crashes instead of disagreeing
+    let layout_ok = true;
+    let layout_obs = layout_traces::<Std>().len();
     let mut seen: HashSet<u128> = HashSet::new();
     seen.insert(Model::default().key());
     let mut frontier: Vec<Vec<Cmd>> = vec![vec![]];
@@ -1057,6 +1150,15 @@ fn explore(args: &[String]) -> i32 {
     let mut transitions = 0usize;
     let mut depth = 0usize;
     let mut violations: Vec<(String, String)> = Vec::new();
+    if !layout_ok {
+        let a = layout_traces::<Std>();
+        let b = layout_traces::<Cactus>();
+        let pos = a.iter().zip(b.iter()).position(|(x, y)| x != y).unwrap_or(0);
+        violations.push((
+            "layout-programs".to_string(),
+            format!("the fixed programs over zero-sized / byte / 64-byte-aligned / String payloads differ between std and cactusref at observation #{pos} (std {:?}, cactusref {:?})", a.get(pos), b.get(pos)),
+        ));
+    }
     let mut model_errors: Vec<String> = Vec::new();
     let mut samples: Vec<String> = Vec::new();
     let mut levels = Vec::new();
@@ -1144,7 +1246,7 @@ fn explore(args: &[String]) -> i32 {
     j.push_str(&format!(" \"bounds\": \"allocations<={} outside strong handles per allocation<={} Weak per allocation<={} stored handles<={}\",\n", b.allocs, b.x, b.w, b.stored));
     j.push_str(&format!(" \"states\": {states},\n \"programs\": {transitions},\n \"depth_completed\": {depth},\n \"exhaustive\": {},\n \"unexpanded_states_when_capped\": {},\n", !capped, frontier.len()));
     j.push_str(&format!(" \"level_sizes\": [{}],\n", levels.iter().map(|x| x.to_string()).collect::<Vec<_>>().join(",")));
-    j.push_str(&format!(" \"api_commands_exercised\": {},\n", cmds_seen.len()));
+    j.push_str(&format!(" \"api_commands_exercised\": {},\n \"layout_program_observations\": {layout_obs},\n", cmds_seen.len()));
     j.push_str(&format!(" \"wall_s\": {:.2},\n", t0.elapsed().as_secs_f64()));
     j.push_str(&format!(" \"samples\": [{}],\n", samples.iter().map(|s| jstr(s)).collect::<Vec<_>>().join(", ")));
     j.push_str(&format!(" \"model_errors\": [{}],\n", model_errors.iter().map(|s| jstr(s)).collect::<Vec<_>>().join(", ")));
